@@ -216,14 +216,20 @@ func runOffer(o *Out, r *rand.Rand, thorough bool, _ []string) {
 					ks = append(ks, fmt.Sprint(ix))
 				}
 				if !completes {
+					// a quarter of the pending offers come from a version-0 peer: its filter does not look at the marks, but
+					// what it accepts is being received all the same
+					ver, tag := uint8(1), "p:"
+					if r.Intn(4) == 0 {
+						ver, tag = 0, "P:"
+					}
 					asker := signRecPad(keyFromSeed(r), net.IP{34, 74, byte(c), byte(1 + k)}, 5000, 1, 0)
-					rcv.p.VerifVersionsCacheSet(asker, 1)
+					rcv.p.VerifVersionsCacheSet(asker, ver)
 					resp, err := rcv.p.VerifHandleOffer(asker, &net.UDPAddr{IP: asker.IP(), Port: 5000}, &portalwire.Offer{ContentKeys: keys})
-					ops = append(ops, "p:"+strings.Join(ks, "."))
+					ops = append(ops, tag+strings.Join(ks, "."))
 					if err != nil {
 						outs = append(outs, "error")
 					} else {
-						outs = append(outs, strings.TrimPrefix(strings.Fields(decodeAccept(1, resp, len(keys)))[0], "verdicts="))
+						outs = append(outs, strings.TrimPrefix(strings.Fields(decodeAccept(ver, resp, len(keys)))[0], "verdicts="))
 					}
 					continue
 				}
